@@ -194,7 +194,7 @@ class Run:
         args = ()
         if '__content__' in kwargs:
             bid, ln = kwargs.pop('__content__')
-            data = content(100000 + bid, ln)
+            data = content(100000 + bid, max(ln, 0))
             fp = io.BytesIO(data)
             self.fps.append(fp)
             args = (fp, ln)
@@ -208,6 +208,13 @@ class Run:
             return 'bad-refused'
         self.bad_results.append((i, call.note[1], call.note[2], 'accepted', ''))
         self.dead = True        # the twin comparison is void: whether it should have been refused is C13's business
+        # ... unless the object cannot be mastered any more: then the call was neither refused nor carried out
+        try:
+            self.iso.write_fp(io.BytesIO())
+        except pex.PyCdlibInvalidInput:
+            pass
+        except Exception as e:  # noqa
+            self.bad_unwritable = (call.note[1], exc_signature(e), str(e)[:160])
         return 'bad-accepted'
 
     # After a reopen the library gives all zero-length files and symlinks one shared inode,
